@@ -39,8 +39,8 @@ def make_schedule(p, length):
     return dict(workers=workers, cuts=cuts, order=order, tids=tids, mode=p["mode"] % 2)
 
 
-def run_entry(e, n, a, b, self_masked):
-    out, self_elems, arg_elems = evaluate(e, n, a, b, self_masked)
+def run_entry(e, n, a, b, self_masked, rhs_full=False):
+    out, self_elems, arg_elems = evaluate(e, n, a, b, self_masked, rhs_full)
     tag = e["subject"].partition(":")[0]
     if e["kind"] == "array":
         got = out["result"]
@@ -57,6 +57,7 @@ def interp(p):
     a, b = p["a"], p["b"]
     tag, _, what = e["subject"].partition(":")
     self_masked = bool(p.get("self_masked")) and tag == "method" and e.get("self_masked_ok", False)
+    rhs_full = bool(self_masked and e.get("rhs_full_ok") and p.get("rhs_full", 1))
     sched = make_schedule(p["sched"], n)
     where = "%s %s%r n=%d" % (e["subject"], e["name"], tuple(e["args"]), n)
     labels = set()
@@ -65,7 +66,7 @@ def interp(p):
     # (1) no pool
     POOL.remove()
     try:
-        r0, self_elems, arg_elems, out0 = run_entry(e, n, a, b, self_masked)
+        r0, self_elems, arg_elems, out0 = run_entry(e, n, a, b, self_masked, rhs_full)
     except Exception as ex:
         raise Violation("catalogue/entry-raises", "%s raised %r without a pool (it did not on the unchanged tree)" % (where, ex))
     if e["kind"] == "array" and (r0 is None or len(r0) != n):
@@ -75,7 +76,7 @@ def interp(p):
     POOL.schedule(sched["cuts"], sched["order"], sched["tids"], sched["mode"])
     POOL.reset_stats()
     try:
-        r1, _se, _ae, _o = run_entry(e, n, a, b, self_masked)
+        r1, _se, _ae, _o = run_entry(e, n, a, b, self_masked, rhs_full)
     except Exception as ex:
         POOL.remove()
         raise Violation("schedule/raises-under-pool", "%s raised %r under schedule %r" % (where, ex, sched))
@@ -108,9 +109,22 @@ def interp(p):
             if not ok:
                 raise Violation("scalar/element-differs", "%s: element %d is %s, the scalar binding gives %s" % (where, i, r0[i], exp))
         labels.add("scalar_oracle_" + e["scalar_oracle"])
+    # (3b) scalar-object methods that fold an array into their subject (Box.extendBy): the result must equal the
+    # subject after applying the scalar method to every element in turn
+    if e["kind"] == "subject-inplace" and n > 0:
+        try:
+            subj = scalar_instance(what, a, b)
+            for i in range(n):
+                getattr(subj, e["name"])(arg_elems[0][i])
+            exp = repr(subj)
+        except Exception as ex:
+            raise Violation("scalar/binding-raises", "%s: scalar form raised %r" % (where, ex))
+        if r0 != exp:
+            raise Violation("scalar/fold-differs", "%s: array form gives %s, applying the scalar method to each of the %d elements gives %s" % (where, r0, n, exp))
+        labels.add("scalar_fold_oracle")
     # (4) mismatched lengths must raise
     arr_args = [j for j, k in enumerate(e["args"]) if k.startswith(("arr:", "mask:"))]
-    if arr_args and n >= 1 and p.get("mismatch"):
+    if arr_args and n >= 1 and p.get("mismatch") and not rhs_full:
         j = arr_args[p["mismatch"] % len(arr_args)]
         keep = []
         args = []
@@ -140,6 +154,10 @@ def interp(p):
         labels.add("no_scalar_form")
     labels.add(tag)
     labels.add(e["kind"])
+    if self_masked:
+        labels.add("masked_subject")
+    if rhs_full:
+        labels.add("masked_subject_unmasked_length_rhs")
     return dict(nontrivial=nontrivial, labels=sorted(labels), desc="%s schedule cuts=%r order=%r tids=%r mode=%d" % (where, [c * n >> 16 for c in sched["cuts"]], sched["order"], sched["tids"], sched["mode"]))
 
 
@@ -153,7 +171,7 @@ def sweep_items(tier, seed):
     reps = 6 if tier == "thorough" else 1
     items = []
     for idx in range(len(CAT)):
-        for li in ((2, 7) if tier != "thorough" else (0, 2, 3, 5, 7, 8)):
+        for li in ((2, 5, 7) if tier != "thorough" else (0, 2, 3, 5, 7, 8)):
             for r in range(reps):
                 s = (idx * 31 + li * 7 + r * 13 + seed) % 1000
                 items.append(dict(entry=idx, len=li, a=(s + 1) % 17, b=(s * 3) % 23, self_masked=(s % 3 == 0), mismatch=1 + s % 3,
@@ -225,13 +243,83 @@ def grid_items(tier, seed):
     return items
 
 
+CCAT = json.load(open(os.path.join(os.path.dirname(os.path.abspath(__file__)), "c20_catalogue_ctor.json")))
+
+
+def interp_ctor(p):
+    e = CCAT[p["entry"] % len(CCAT)]
+    cls, comp, k = e["cls"], e["comp"], e["k"]
+    n = LENGTHS[p["len"] % len(LENGTHS)]
+    a, b = p["a"], p["b"]
+    T = ARR[cls]["T"]
+    where = "%s(%s)" % (cls, ", ".join([comp] * k))
+    labels = set(["k%d" % k])
+
+    def build(lengths):
+        return [build_array(comp, lengths[j], a + j + 1, b + j + 2, signed=False)[0] for j in range(k)]
+    POOL.remove()
+    try:
+        args = build([n] * k)
+        r0 = T(*args)
+    except Exception as ex:
+        raise Violation("catalogue/entry-raises", "%s n=%d raised %r (it did not on the unchanged tree)" % (where, n, ex))
+    if len(r0) != n:
+        raise Violation("result/length", "%s returned %d elements for %d" % (where, len(r0), n))
+    c0 = canon(r0)
+    sched = make_schedule(p["sched"], n)
+    POOL.install(sched["workers"])
+    POOL.schedule(sched["cuts"], sched["order"], sched["tids"], sched["mode"])
+    POOL.reset_stats()
+    try:
+        r1 = T(*build([n] * k))
+    finally:
+        st_ = POOL.stats()
+        POOL.remove()
+    if canon(r1) != c0:
+        raise Violation("schedule/result-depends-on-partition", "%s n=%d differs under schedule %r" % (where, n, sched))
+    if st_[0] > 0:
+        labels.add("dispatched")
+    if e["scalar_oracle"] == "exact" and n > 0:
+        E = getattr(imath, ARR[cls]["elem"])
+        for i in (range(n) if n <= 64 else sorted(set([0, 1, n - 1, n // 2] + [(13 * q + a) % n for q in range(30)]))):
+            exp = repr(E(*[x[i] for x in args]))
+            if c0[i] != exp:
+                raise Violation("ctor/element-differs", "%s: element %d is %s, the scalar constructor gives %s" % (where, i, c0[i], exp))
+        labels.add("scalar_oracle_exact")
+    if k > 1 and n >= 1:
+        for j in range(k):
+            # one argument longer (never shorter: a missing check must not make this harness read out of bounds)
+            lens = [n] * k
+            lens[j] = n + 1 + (p["a"] % 3)
+            try:
+                T(*build(lens))
+            except Exception:
+                labels.add("mismatch_raises")
+            else:
+                raise Violation("mismatch/no-exception", "%s with argument %d of length %d (others %d) did not raise" % (where, j, lens[j], n))
+    return dict(nontrivial=n > 200, labels=sorted(labels), desc="%s n=%d" % (where, n))
+
+
+def ctor_items(tier, seed):
+    items = []
+    for idx in range(len(CCAT)):
+        for li in ((2, 7) if tier != "thorough" else (0, 1, 2, 3, 5, 7, 8)):
+            s_ = (idx * 19 + li * 5 + seed) % 991
+            items.append(dict(entry=idx, len=li, a=(s_ + 1) % 17, b=(s_ * 3) % 23,
+                              sched=dict(cuts=[(s_ * 977 + 13000 * q) % 65537 for q in range(1 + s_ % 5)], order_salt=s_ + 1, tid_salt=s_ + 2, mode=s_ % 2, workers=s_ % 6)))
+    return items
+
+
 GROUPS = [
     Group("catalogue_sweep", None, interp, 0, 0,
-          "complete sweep: every one of the %d catalogued vectorised entry points (array methods/operators x argument-kind combinations array/scalar/masked, module functions, scalar-object methods taking arrays) x lengths {2, 257} (thorough: {0,2,199,201,257,1000}) x generated schedules; non-trivial = length > 200, dispatched to the pool, >= 2 non-empty chunks executed out of order" % len(CAT),
-          required_labels=["dispatched", "concurrent", "scalar_oracle_exact", "mismatch_raises", "method", "func", "scalar", "inplace"], items=sweep_items),
-    Group("schedules", PROG, interp, 300, 20000,
+          "complete sweep: every one of the %d catalogued vectorised entry points (array methods/operators x argument-kind combinations array/scalar/masked, module functions, scalar-object methods taking arrays) x lengths {2, 201, 257} (thorough: {0,2,199,201,257,1000}) x generated schedules; non-trivial = length > 200, dispatched to the pool, >= 2 non-empty chunks executed out of order" % len(CAT),
+          required_labels=["dispatched", "concurrent", "scalar_oracle_exact", "mismatch_raises", "method", "func", "scalar", "inplace", "masked_subject", "masked_subject_unmasked_length_rhs", "scalar_fold_oracle"], items=sweep_items),
+    Group("schedules", PROG, interp, 2400, 40000,
           "random (entry, length in {0,1,2,199,200,201,202,257,1000}, data seeds, masked self, schedule: up to 8 chunks incl. empty ones, permutation, worker ids, serial/concurrent); non-trivial as above",
           required_labels=["dispatched"]),
+    Group("array_ctors", None, interp_ctor, 0, 0,
+          "complete sweep of the %d array constructors that take other arrays (element-type conversions V3fArray(V3dArray) ..., M33/M44 arrays from 9/16 component arrays) x lengths {2, 257} x a generated schedule: element i equals the scalar constructor applied to the i-th elements, result independent of the schedule, each argument made longer in turn must raise; non-trivial = length above the dispatch threshold" % len(CCAT),
+          required_labels=["scalar_oracle_exact", "mismatch_raises", "k16", "k1"], items=ctor_items),
     Group("grid_ops", None, interp_grid, 0, 0,
           "complete sweep of the %d catalogued element-wise operators of FixedArray2D (Int/Float/Double/Color4f/Color4c) and FixedMatrix (Int/Float/Double) x argument kinds (none / same-shape container / scalar) on generated shapes up to 6x5: every element compared with the scalar operation (C semantics for numbers, the scalar binding for colours), operands untouched, other-shape operands must raise; non-trivial = more than one element" % len(GCAT),
           required_labels=["scalar_oracle_exact", "mismatch_raises", "inplace_operator", "array"], items=grid_items),
